@@ -29,6 +29,13 @@ def run(ctx):
     meths = m.methods('UnicodeToLatexEncoder')
     rules(ctx, repo, m, meths)
     ctx.assume('rule callables and regular expressions supplied by the user are outside the rule')
+    # ---- R04m (C13 R13h); the module-state rule of C09 is R04g above
+    ctx.rule('R04m', 'nothing on the unknown-character path can raise except the fail policy: no library call that is '
+                     'partial on characters (unicodedata.name without default) (C13 R13h)', 1)
+    from . import c13 as _c13
+    from .. import core as _core
+    _core.run_proxied(ctx, _c13, 'R04m', ('R13h',))
+
     return 'other', (
         'Decides the structural conditions of the documented encoder semantics: the rule sequence '
         'is built and compiled one-to-one in input order, the main loop tries rules first-match '
@@ -438,19 +445,38 @@ def rules(ctx, repo, m, meths):
         app = symex.resolve(app, cs.env) if app is not None else None
         fn_ = symex.resolve(app.func, cs.env) if isinstance(app, ast.Call) else None
         facts = symex.facts_of(cs.conds, cs.env)
-        is_none = [p_ for t_, p_ in facts if t_ == rattr + ' is None']
-        if fn_ is None or not is_none:
-            why = 'the replacement appended is %s' % (short(app) if app is not None else 'missing')
+        variants = [(facts, fn_)]
+        if isinstance(fn_, ast.Call) and is_self_attr(fn_.func) and fn_.func.attr in meths and \
+                fn_.func.attr != '_get_replacement_latex_fn':
+            # the choice of the protecting function was moved into a helper method: its returning
+            # paths (parameters replaced by the arguments) take the place of this path
+            h_ = meths[fn_.func.attr]
+            ren_ = dict(zip([a_.arg for a_ in h_.args.args][1:], fn_.args))
+            try:
+                hr_ = [c for c in symex.Walker(want_returns=True).run(h_) if c.kind == 'return']
+            except symex.TooManyPaths:
+                hr_ = []
+            variants = []
+            for rc in hr_:
+                f2 = symex.facts_of([(symex.subst(symex.expand(t_, rc.env), ren_), p_) for t_, p_ in rc.conds])
+                v2 = symex.subst(symex.resolve(rc.sub, rc.env), ren_)
+                variants.append((facts | f2, v2))
+        for facts, fn_ in variants:
+            is_none = [p_ for t_, p_ in facts if t_ == rattr + ' is None']
+            if fn_ is None or not is_none:
+                why = 'the replacement appended is %s' % (short(app) if app is not None else 'missing')
+                break
+            if is_none[0]:
+                n_enc += 1
+                if unparse(fn_) != 'self._apply_protection':
+                    why = 'without a rule-level scheme the text is protected by %s' % short(fn_)
+            else:
+                n_rule += 1
+                if not (isinstance(fn_, ast.Call) and call_name(fn_) == '_get_replacement_latex_fn'
+                        and fn_.args and unparse(fn_.args[0]) == rattr):
+                    why = 'with a rule-level scheme the text is protected by %s' % short(fn_)
+        if why is not None:
             break
-        if is_none[0]:
-            n_enc += 1
-            if unparse(fn_) != 'self._apply_protection':
-                why = 'without a rule-level scheme the text is protected by %s' % short(fn_)
-        else:
-            n_rule += 1
-            if not (isinstance(fn_, ast.Call) and call_name(fn_) == '_get_replacement_latex_fn'
-                    and fn_.args and unparse(fn_.args[0]) == rattr):
-                why = 'with a rule-level scheme the text is protected by %s' % short(fn_)
     if why is None and not (n_rule and n_enc):
         why = 'the two cases (rule-level scheme set / not set) are not distinguished'
     ctx.decide('R04c', why is None, m, ar, 'rule-level scheme replaces the encoder-wide one when set',
